@@ -16,7 +16,7 @@ fam = {'C09': ('props.respfam', 'Trace_Responder'), 'C16': ('props.respfam', 'Tr
 mod = importlib.import_module(fam[0])
 sc = d['replay']['scenario']
 tr = mod.Recorder(sc).run()
-payload = {'own': 'ALL', 'dbg': 1, 'traces': [tr]}
+payload = {'own': __import__('os').environ.get('EXPLAIN_OWN', 'ALL'), 'dbg': 1, 'traces': [tr]}
 if 'voc' in tr:
     payload['vocab'] = tr.pop('voc')
 if prop == 'C18':
